@@ -12,6 +12,7 @@ import (
 	"pgregory.net/rapid"
 
 	"verifharness/icbor"
+	"verifharness/icose"
 )
 
 type regProf struct {
@@ -59,6 +60,12 @@ type c07Case struct {
 	S1     slotVal  `json:"psa_profile_slot"`             // -75000 / "psa-profile"
 	S2     slotVal  `json:"eat_profile_slot"`             // 265 / "eat-profile"
 	SX     slotVal  `json:"x_profile_slot"`               // "x-profile" (JSON only)
+	// Prior (format "cose"): what the Evidence held before UnmarshalCOSE
+	Prior string `json:"evidence_prior_state,omitempty"`
+	// FailedReg: registrations attempted (and refused) before decoding:
+	// "unknown-bad-shape" = an unregistered name with a claims type that has
+	// no usable profile field; "existing" = built-in names with another type
+	FailedReg []string `json:"failed_registrations,omitempty"`
 }
 
 func (c *c07Case) registered() []regProf {
@@ -276,7 +283,7 @@ func viewUnder(sel *regProf, body *MClaims, profVal *string) *MClaims {
 
 func (c *c07Case) expect() c07Expect {
 	regs := c.registered()
-	if c.Format == "cbor" {
+	if c.Format != "json" {
 		var sel *regProf
 		switch c.S2.Kind {
 		case "absent":
@@ -363,6 +370,57 @@ func c07Check(c *c07Case) string {
 	if c.Format == "cbor" {
 		tok, tok0 = c.cborToken(true), c.cborToken(false)
 		dec, decv = psatoken.DecodeClaimsFromCBOR, psatoken.DecodeAndValidateClaimsFromCBOR
+	} else if c.Format == "cose" {
+		// the same token as the payload of a signed envelope, decoded by an
+		// Evidence that may already hold claims of some profile
+		kp := keyFor(icose.EdDSA, 0)
+		wrap := func(b []byte) []byte {
+			t, err := icose.SignedToken(kp.Alg, kp.Priv, b)
+			if err != nil {
+				panic("VERIF-INFRA: " + err.Error())
+			}
+			return t
+		}
+		tok, tok0 = wrap(c.cborToken(true)), wrap(c.cborToken(false))
+		prep := func() *psatoken.Evidence {
+			ev := &psatoken.Evidence{}
+			switch c.Prior {
+			case "decoded-p1":
+				_ = ev.UnmarshalCOSE(wrap(baseValid(P1, 1).WireBytes()))
+			case "decoded-p2":
+				_ = ev.UnmarshalCOSE(wrap(baseValid(P2, 1).WireBytes()))
+			case "setclaims-p1":
+				lit, _ := baseValid(P1, 2).BuildLiteral()
+				_ = ev.SetClaims(lit)
+			case "setclaims-p2":
+				lit, _ := baseValid(P2, 0).BuildLiteral()
+				_ = ev.SetClaims(lit)
+			case "failed-decode":
+				_ = ev.UnmarshalCOSE(wrap(baseValid(P2, 1).WireBytes()))
+				_ = ev.UnmarshalCOSE([]byte{0xd2, 0x84, 0x40})
+			}
+			return ev
+		}
+		dec = func(b []byte) (psatoken.IClaims, error) {
+			ev := prep()
+			if err := ev.UnmarshalCOSE(b); err != nil {
+				return nil, err
+			}
+			return ev.Claims, nil
+		}
+		decv = func(b []byte) (psatoken.IClaims, error) {
+			ev := prep()
+			if err := ev.UnmarshalCOSE(b); err != nil {
+				return nil, err
+			}
+			if err := ev.Claims.Validate(); err != nil {
+				return nil, err
+			}
+			if ev2, err := psatoken.DecodeAndValidateEvidenceFromCOSE(b); err != nil || fmt.Sprintf("%T", ev2.Claims) != fmt.Sprintf("%T", ev.Claims) {
+				return nil, fmt.Errorf("DecodeAndValidateEvidenceFromCOSE disagrees with UnmarshalCOSE+Validate on a used Evidence: %v", err)
+			}
+			return ev.Claims, nil
+		}
 	} else {
 		tok, tok0 = c.jsonDoc(true), c.jsonDoc(false)
 		dec, decv = psatoken.DecodeClaimsFromJSON, psatoken.DecodeAndValidateClaimsFromJSON
@@ -468,12 +526,24 @@ func c07NewClaims(regs []regProf) string {
 	return ""
 }
 
-func withRegistered(idx []int, fn func()) {
+func withRegistered(idx []int, fn func(), failed ...string) {
 	restore := psatoken.VerifCheckpointProfiles()
 	defer restore()
 	for _, i := range idx {
 		if err := psatoken.RegisterProfile(extraProfs[i].Impl); err != nil {
 			panic("VERIF-INFRA: cannot register " + extraProfs[i].Name + ": " + err.Error())
+		}
+	}
+	// registrations that must be refused and must not influence dispatch
+	for _, f := range failed {
+		switch f {
+		case "unknown-bad-shape":
+			_ = psatoken.RegisterProfile(dynProfile{"http://example.com/unknown", "no-json-tag"})
+			_ = psatoken.RegisterProfile(dynProfile{"PSA_IOT_PROFILE_2", "no-profile-field"})
+		case "existing":
+			_ = psatoken.RegisterProfile(dynProfile{P2Name, "ext-p2"})
+			_ = psatoken.RegisterProfile(dynProfile{P1Name, "own-tag"})
+			_ = psatoken.RegisterProfile(dynProfile{"", "ext-p2"})
 		}
 	}
 	fn()
@@ -487,7 +557,7 @@ var c07Kind = registerKind("c07", func(c c07Case) string {
 		if msg = c07NewClaims(c.registered()); msg == "" {
 			msg = c07Check(&c)
 		}
-	})
+	}, c.FailedReg...)
 	return msg
 })
 
@@ -501,13 +571,24 @@ func drawSlot(t *rapid.T, label string, kinds []string) slotVal {
 }
 
 func TestC07_Dispatch(t *testing.T) {
-	st := NewStats("C07", "TestC07_Dispatch", "rapid: a body of profile-1 or profile-2 claims (valid, or with 1..2 rule deviations) in CBOR (independent encoder; optionally with the other profile's complete body mixed in) or JSON (harness's own writer), combined with every class of profile claim under each profile's key/member (-75000 / 265, psa-profile / eat-profile / x-profile): absent, null, undefined, empty, non-text, one of 24 names (the two built-ins, three extension names, unknown URIs, and look-alikes that case / URL / whitespace normalisation would map onto a registered name), under one key or both; with every subset of three extra profiles registered through the checkpoint hook (an extension of profile 2 sharing eat-profile, an extension of profile 1 sharing psa-profile, one with its own JSON member). Oracle: reference dispatcher (CBOR: key 265 absent -> profile 1, registered name -> that profile, other text -> error; JSON: exactly one registered name matched -> it, a present non-null profile member matching nothing or two profiles matched -> error, none present -> profile 1); result type = selected profile's; decode-and-validate succeeds iff the token is valid under THAT profile's rules (independent model, cross-read member names); accepted token reports the declared name and the wire values; NewClaims(p) reports p for every registered p and fails otherwise. Key 265 holding ''/null/undefined/non-text or the profile-1 name: error or identical to the token without it. Non-trivial = profile claim not simply present-and-matching with nothing else registered; distinct = format + slots + registered set + validity class")
-	st.Require = []string{"cbor", "json", "expect=error", "expect=soft", "expect=selected-valid", "expect=selected-invalid", "sel=default", "sel=extension", "reg=0", "reg>0", "both-keys", "cross-profile"}
+	st := NewStats("C07", "TestC07_Dispatch", "rapid: a body of profile-1 or profile-2 claims (valid, or with 1..2 rule deviations) in CBOR (independent encoder; optionally with the other profile's complete body mixed in), the same CBOR as payload of a signed COSE envelope decoded by an Evidence that is fresh or already holds claims of either profile (decoded, attached, or after a failed decode), or JSON (harness's own writer); optionally after registrations that must be refused (existing names, claims types without usable profile field), combined with every class of profile claim under each profile's key/member (-75000 / 265, psa-profile / eat-profile / x-profile): absent, null, undefined, empty, non-text, one of 24 names (the two built-ins, three extension names, unknown URIs, and look-alikes that case / URL / whitespace normalisation would map onto a registered name), under one key or both; with every subset of three extra profiles registered through the checkpoint hook (an extension of profile 2 sharing eat-profile, an extension of profile 1 sharing psa-profile, one with its own JSON member). Oracle: reference dispatcher (CBOR: key 265 absent -> profile 1, registered name -> that profile, other text -> error; JSON: exactly one registered name matched -> it, a present non-null profile member matching nothing or two profiles matched -> error, none present -> profile 1); result type = selected profile's; decode-and-validate succeeds iff the token is valid under THAT profile's rules (independent model, cross-read member names); accepted token reports the declared name and the wire values; NewClaims(p) reports p for every registered p and fails otherwise. Key 265 holding ''/null/undefined/non-text or the profile-1 name: error or identical to the token without it. Non-trivial = profile claim not simply present-and-matching with nothing else registered; distinct = format + slots + registered set + validity class")
+	st.Require = []string{"cbor", "json", "cose", "cose-used-evidence", "after-refused-registration", "expect=error", "expect=soft", "expect=selected-valid", "expect=selected-invalid", "sel=default", "sel=extension", "reg=0", "reg>0", "both-keys", "cross-profile"}
 	defer st.Flush(t)
 	registerMu.Lock()
 	defer registerMu.Unlock()
 	rapid.Check(t, func(t *rapid.T) {
-		c := &c07Case{Format: rapid.SampledFrom([]string{"cbor", "json"}).Draw(t, "format")}
+		c := &c07Case{Format: rapid.SampledFrom([]string{"cbor", "json", "cbor", "json", "cose"}).Draw(t, "format")}
+		if c.Format == "cose" {
+			c.Prior = rapid.SampledFrom([]string{"fresh", "decoded-p1", "decoded-p2", "setclaims-p1", "setclaims-p2", "failed-decode"}).Draw(t, "prior")
+		}
+		switch rapid.IntRange(0, 5).Draw(t, "failedreg") {
+		case 0:
+			c.FailedReg = []string{"unknown-bad-shape"}
+		case 1:
+			c.FailedReg = []string{"existing"}
+		case 2:
+			c.FailedReg = []string{"existing", "unknown-bad-shape"}
+		}
 		for i := range extraProfs {
 			if rapid.IntRange(0, 2).Draw(t, fmt.Sprintf("reg%d", i)) == 0 {
 				c.Reg = append(c.Reg, i)
@@ -534,7 +615,7 @@ func TestC07_Dispatch(t *testing.T) {
 			}
 		}
 		c.Body = *body
-		if c.Format == "cbor" && rapid.IntRange(0, 3).Draw(t, "otherbody") == 0 {
+		if c.Format != "json" && rapid.IntRange(0, 3).Draw(t, "otherbody") == 0 {
 			oq := P1
 			if q == P1 {
 				oq = P2
@@ -546,7 +627,7 @@ func TestC07_Dispatch(t *testing.T) {
 		// the slots; bias towards the natural configuration of the body
 		natural := genBool.Draw(t, "natural")
 		textKinds := []string{"absent", "absent", "name", "name", "name", "empty", "null", "nontext"}
-		if c.Format == "cbor" {
+		if c.Format != "json" {
 			c.S1 = drawSlot(t, "s1", []string{"absent", "absent", "name", "empty"})
 			c.S2 = drawSlot(t, "s2", append(textKinds, "undefined", "name", "name"))
 		} else {
@@ -575,8 +656,14 @@ func TestC07_Dispatch(t *testing.T) {
 			if msg = c07NewClaims(c.registered()); msg == "" {
 				msg = c07Check(c)
 			}
-		})
+		}, c.FailedReg...)
 		ex := c.expect()
+		if c.Prior != "" && c.Prior != "fresh" {
+			defer st.Class("cose-used-evidence")
+		}
+		if len(c.FailedReg) > 0 {
+			defer st.Class("after-refused-registration")
+		}
 		cls := []string{c.Format}
 		switch {
 		case ex.Err:
@@ -613,7 +700,7 @@ func TestC07_Dispatch(t *testing.T) {
 		if !simple {
 			regs := append([]int{}, c.Reg...)
 			sort.Ints(regs)
-			key = fmt.Sprintf("%s|%v|%v|%v|%v|%v|%s", c.Format, c.S1, c.S2, c.SX, regs, c.Other != nil, strings.Join(cls, ","))
+			key = fmt.Sprintf("%s|%s|%v|%v|%v|%v|%v|%v|%s", c.Format, c.Prior, c.FailedReg, c.S1, c.S2, c.SX, regs, c.Other != nil, strings.Join(cls, ","))
 			if body.Valid() {
 				key += "|" + q.String()
 			} else {
